@@ -191,6 +191,26 @@ pub fn worker(cases_path: &str, out_path: &str, tier: &str, seed: u64, start: u6
                         "one_pass_packets" => { let mut b = MessageBuilder::from_bytes("", b"payload".to_vec()); b.sign(&signer4.primary_key, Password::empty(), HashAlgorithm::Sha256); let m = b.to_vec(rng(seed)).unwrap_or_default(); let (d, used) = deframe_one(&m).unwrap(); let _ = d; let ops = m[..used].to_vec(); let rest = m[used..].to_vec(); let (_, lused) = deframe_one(&rest).unwrap(); let sig = rest[lused..].to_vec(); let mut v = Vec::new(); for _ in 0..n { v.extend(&ops); } v.extend(&rest[..lused]); for _ in 0..n { v.extend(&sig); } (v, "message") }
                         "user_ids" => { let k = signer4.to_public_key().to_bytes().unwrap_or_default(); let (_, used) = deframe_one(&k).unwrap(); let mut v = k[..used].to_vec(); for i in 0..n { v.extend(pkt(13, format!("user {i}").as_bytes())); } (v, "key") }
                         "nested_compressed" => { let depth = n / 20; let mut cur = lit.clone(); for _ in 0..depth { let mut b = vec![0u8]; b.extend(&cur); cur = pkt(8, &b); } (cur, "message") }
+                        "nested_embedded_signatures" => {
+                            // a v4 signature whose unhashed area holds an embedded signature subpacket (type 32) that holds a signature that holds ...
+                            let depth = (n / 20).min(if n >= 40_000 { 3200 } else { 1600 });
+                            let mut cur: Vec<u8> = vec![4, 0, 1, 8, 0, 0, 0, 0, 0xAB, 0xCD, 0, 8, 0xFF];
+                            for _ in 0..depth {
+                                let mut sub = vec![255u8];
+                                sub.extend_from_slice(&((cur.len() + 1) as u32).to_be_bytes());
+                                sub.push(32);
+                                sub.extend_from_slice(&cur);
+                                if sub.len() > 65000 { break; }
+                                let mut b = vec![4u8, 0, 1, 8, 0, 0];
+                                b.extend_from_slice(&(sub.len() as u16).to_be_bytes());
+                                b.extend_from_slice(&sub);
+                                b.extend_from_slice(&[0xAB, 0xCD, 0, 8, 0xFF]);
+                                cur = b;
+                            }
+                            let mut v = pkt(2, &cur);
+                            v.extend(&lit);
+                            (v, "message")
+                        }
                         "armor_header_lines" => { let mut s = String::from("-----BEGIN PGP MESSAGE-----\n"); for i in 0..n { s.push_str(&format!("Comment: line {i}\n")); } s.push_str("\nyxA=\n-----END PGP MESSAGE-----\n"); (s.into_bytes(), "armor") }
                         _ => { let mut v = vec![b'x'; n * 50]; v.extend(b"\n-----BEGIN PGP MESSAGE-----\n\nyxA=\n-----END PGP MESSAGE-----\n"); (v, "armor") }
                     }
